@@ -179,7 +179,8 @@ def faults(tier, seed, runner, lines):
             viol.append(('fault', ['# ' + l], l, True))
     # the raw representation after every injected failure of single setter calls must be a state the exception-aware
     # operational model (Impl/SetRepExc.lean, theorems Props/C20b) can be left in
-    fs = [l[len('FAILSTATE '):] for l in out if l.startswith('FAILSTATE ')]
+    # (a harness that died mid-line leaves a truncated last line: only complete lines are replayed)
+    fs = [l[len('FAILSTATE '):] for l in out if l.startswith('FAILSTATE ') and len(l.split(' | ')) == 3 and len(l.split(' | ')[2].split(' ')) == 5]
     if len(fs) < 20 and p.returncode == 0:
         viol.append(('fault', ['# fault harness'], 'only %d post-failure states were reported by the fault harness (at least 20 expected): the membership tie did not run' % len(fs), False))
     if fs:
